@@ -94,7 +94,7 @@ Proof. exact bmp_safe_top. Qed.
 Print Assumptions C18_bmp_load_safe.
 
 (* (5b) BMP save then load at 8 bits: gray (palettised) and every RGB-family layout,
-   both row orders, any width the memory manager admits (4 * w <= MAX_ALLOC_CHUNK) *)
+   both row orders, any width the memory manager allows (4 * w <= MAX_ALLOC_CHUNK) *)
 Theorem C18_bmp8_roundtrip : forall cmyk uncmyk t bottomup w h rows,
   (t = TGray \/ exists l, t = TRgb l /\ 1 <= l_ps l <= 4) ->
   1 <= w <= 250000000 -> 1 <= h <= 2147483647 ->
